@@ -466,6 +466,29 @@ pub fn run(ctx: &Ctx) {
             4 => format!("{}{}", rng.pick(&[" \t", "\t ", " \t ", "  ", "\t\t ", " \t \t"]), textgen::sentence(&mut rng)),
             _ => textgen::text(&mut rng),
         };
+        // the same condensable construct in BOTH paragraphs (every pass that merges tokens and
+        // re-indexes the rest must leave the other paragraph alone)
+        let (p, d) = if i % 3 == 0 {
+            let items = ["1st", "22nd", "103rd", "e.g.", "N.S.A.", "don't", "...", "etc.", "et al.", "3.5", "0x1F", "1980s", "a.m.", "it's", "5's", "[a-z]"];
+            let inject = |rng: &mut Rng, text: &str, item: &str| -> String {
+                let cs: Vec<char> = text.chars().collect();
+                let spaces: Vec<usize> = cs.iter().enumerate().filter(|(_, c)| **c == ' ').map(|(i, _)| i).collect();
+                if spaces.is_empty() {
+                    return format!("{} {}", item, text);
+                }
+                let at = spaces[rng.below(spaces.len())];
+                let mut out: String = cs[..at].iter().collect();
+                out.push(' ');
+                out.push_str(item);
+                out.extend(cs[at..].iter());
+                out
+            };
+            let a = *rng.pick(&items);
+            let b = if rng.chance(1, 2) { a } else { *rng.pick(&items) };
+            (inject(&mut rng, &p, a), inject(&mut rng, &d, b))
+        } else {
+            (p, d)
+        };
         pairs.push((p, d));
     }
     let with_k_every = if ctx.tier == Tier::Thorough { 1 } else { 1 };
